@@ -7,7 +7,9 @@ drv_server ops (not verified; exercised on every line):
   srv classify <hex> [<inhex>=<outhex|E>,..]   frames of a byte string
 
 tokens:  c<k>:<g|b|s|r> connect (good / bad / no credentials yet / connection reset at once) · k<k>:<g|b> the late
-credentials of a client that connected with s · d<k>:<n> release the object of the n-th lend · · p<k> call · l<k> call that lends an object ·
+credentials of a client that connected with s · d<k>:<n> release the object of the n-th lend · · p<k> call · u<k>:<n> a call that passes the n-th kind of by-reference argument, which the service uses through
+callbacks (to the model: a call) · x<k>:<n>:<m> a hostile but well-formed request naming a foreign / builtin type and answering
+the server's class inspection with junk (to the model: a handled frame) · l<k> call that lends an object ·
 o<k>:<n> use the object of the n-th lend (0-based, whole case) on connection k · g<k> graceful close ·
 a<k> abrupt close (FIN) · z<k> abrupt close by reset (RST; the same to the model) · X server close · i<k>:<letters> hostile frames given as items (h handled, e empty, b bad,
 t incomplete) · r<k>:<hex>[:<inhex>=<outhex|E>,..] hostile bytes (zlib results of the compressed frames supplied).
@@ -76,6 +78,12 @@ def parseTok (tok : String) : Option Tok :=
       | _, _ => none
     | _ => none
   | 'p' :: cs => (parseNatChars cs).map (fun k => .op (.call k .ping))
+  | 'u' :: cs => match splitColon cs with
+    | k :: _ => (parseNatChars k).map (fun k => .op (.call k .ping))
+    | _ => none
+  | 'x' :: cs => match splitColon cs with
+    | k :: _ => (parseNatChars k).map (fun k => .op (.raw k [.handled]))
+    | _ => none
   | 'l' :: cs => (parseNatChars cs).map Tok.lend
   | 'o' :: cs => match splitColon cs with
     | [k, n] => match parseNatChars k, parseNatChars n with
